@@ -633,7 +633,9 @@ def p_mp_createClass(p):
 
                 if errcode == CIM_ERR_INVALID_SUPERCLASS:
                     assert not fixedSuper  # Should not happen if we fixed it
-                    moffile = p.parser.mofcomp.find_mof(cc.superclass)
+                    moffile = None
+                    if cc.superclass:
+                        moffile = p.parser.mofcomp.find_mof(cc.superclass)
                     if not moffile:
                         raise MOFDependencyError(
                             msg=_format(
